@@ -142,9 +142,9 @@ def build_line(op):
 
 
 def script_for(case, dbpath, dump=False, flush=False, front=None):
-    lines = ["config db=%s front=%s dump=%d flush=%d client=%d" % (
+    lines = ["config db=%s front=%s dump=%d flush=%d client=%d nosig=%d" % (
         dbpath if case.get("db") else "none", front or case.get("front", "cxx"), int(dump), int(flush),
-        case.get("client", 1))]
+        case.get("client", 1), int(bool(case.get("nosig"))))]
     for r in case["rules"]:
         lines += rule_lines(r)
     for k, v in sorted(case.get("init", {}).items()):
@@ -303,7 +303,11 @@ class World:
             return {"key": key, "leaf": True, "prefix": "3f", "undefined": True}
         return r
 
+    nosig = False
+
     def signature(self, key):
+        if self.nosig:
+            return 0
         r = self.program.get(key)
         if r is None:
             return 7
@@ -453,6 +457,7 @@ def history_case(draw, max_ops=12, allow_restart=True, allow_redef=True, allow_t
 def replay_world(case):
     """Generator over (index, op, world-after-op); world is shared (mutated)."""
     w = World(case["rules"], case.get("init"))
+    w.nosig = bool(case.get("nosig"))
     for i, op in enumerate(case["ops"]):
         o = op["op"]
         if o == "set":
